@@ -353,14 +353,25 @@ func (db *TrieDB) Unsubscribe(clientID string, topics ...string) error {
 	return nil
 }
 
-func (db *TrieDB) unsubscribeAll(index map[string]map[string]*topicNode, clientID string) {
+func (db *TrieDB) unsubscribeAll(index map[string]map[string]*topicNode, clientID string, shared bool) {
 	db.stats.SubscriptionsCurrent -= uint64(len(index[clientID]))
 	if db.clientStats[clientID] != nil {
 		db.clientStats[clientID].SubscriptionsCurrent -= uint64(len(index[clientID]))
 	}
 	for topicName, node := range index[clientID] {
-		delete(node.clients, clientID)
-		if len(node.clients) == 0 && len(node.children) == 0 {
+		if shared {
+			// topicName is shareName/topicFilter
+			shareName := strings.SplitN(topicName, "/", 2)[0]
+			if c := node.shared[shareName]; c != nil {
+				delete(c, clientID)
+				if len(c) == 0 {
+					delete(node.shared, shareName)
+				}
+			}
+		} else {
+			delete(node.clients, clientID)
+		}
+		if len(node.clients) == 0 && len(node.shared) == 0 && len(node.children) == 0 {
 			ss := strings.Split(topicName, "/")
 			delete(node.parent.children, ss[len(ss)-1])
 		}
@@ -370,9 +381,9 @@ func (db *TrieDB) unsubscribeAll(index map[string]map[string]*topicNode, clientI
 
 // UnsubscribeAllLocked is the non thread-safe version of UnsubscribeAll
 func (db *TrieDB) UnsubscribeAllLocked(clientID string) {
-	db.unsubscribeAll(db.userIndex, clientID)
-	db.unsubscribeAll(db.systemIndex, clientID)
-	db.unsubscribeAll(db.sharedIndex, clientID)
+	db.unsubscribeAll(db.userIndex, clientID, false)
+	db.unsubscribeAll(db.systemIndex, clientID, false)
+	db.unsubscribeAll(db.sharedIndex, clientID, true)
 }
 
 // UnsubscribeAll delete all subscriptions of the client
